@@ -41,9 +41,9 @@ class Ctx:
         s.rule_instances[rule] = s.rule_instances.get(rule, 0) + 1
         return status
 
-    def holds(s, rule, construct, detail="", **kw): return s.ob(rule, construct, HOLDS, detail, **kw)
-    def violated(s, rule, construct, detail="", **kw): return s.ob(rule, construct, VIOLATED, detail, **kw)
-    def unknown(s, rule, construct, detail="", **kw): return s.ob(rule, construct, UNKNOWN, detail, **kw)
+    def holds(s, rule, construct, detail="", where="", **kw): return s.ob(rule, construct, HOLDS, detail, where, **kw)
+    def violated(s, rule, construct, detail="", where="", **kw): return s.ob(rule, construct, VIOLATED, detail, where, **kw)
+    def unknown(s, rule, construct, detail="", where="", **kw): return s.ob(rule, construct, UNKNOWN, detail, where, **kw)
 
     def compare(s, rule, construct, code, ref, where="", detail="", prepare=None):
         from .symalg import compare
